@@ -53,4 +53,17 @@ def search(rec, strategy, body, max_examples, seed, max_rounds=4,
             rec.found.add(klass)
         except HarnessError:
             raise
+        except Exception as exc:
+            # Hypothesis reports a failure that does not reproduce when it
+            # re-runs the same example (the code under test is not a pure
+            # function of its input): the property did fail once
+            if type(exc).__name__ in ('Flaky', 'FlakyFailure',
+                                      'FlakyReplay') and 'f' in last:
+                klass, case, msg = last['f']
+                rec.fail(klass + ':nondeterministic', case,
+                         msg + ' [failed once, passed when re-run]')
+                rec.found.add(klass)
+                rec.found.add(klass + ':nondeterministic')
+            else:
+                raise
     rec.note(f'hypothesis driver stopped after {max_rounds} failure rounds')
